@@ -6,7 +6,7 @@ import numpy as np
 from hypothesis import strategies as st
 
 from checks import observe
-from checks.common import S, Raised, call, face_key, get, maxnorm, perm_from_noise, polygon_is_convex_ccw
+from checks.common import S, Raised, as_layout, call, face_key, get, maxnorm, perm_from_noise, polygon_is_convex_ccw
 from gen import curved, zoo
 from gen import poly as gp
 from gen.zoo import f, noise, unit
@@ -30,7 +30,10 @@ def _contain(V, kind):
         return [[float(x) for x in v] for v in V]
     if kind == "tuple":
         return tuple(tuple(float(x) for x in v) for v in V)
-    return np.array(V, dtype=float)
+    # an ndarray in one of four memory layouts (contiguous, strided window of a wider array, Fortran order, reversed
+    # strides), picked from the data so that the same case always gets the same one
+    A = np.array(V, dtype=float)
+    return as_layout(A, int(abs(float(A.sum())) * 1e6) if A.size and np.isfinite(A.sum()) else 0)
 
 
 def _same(a, b):
